@@ -465,6 +465,8 @@ func c32Scenarios(era Era) []*Case {
 		out = append(out,
 			mk(150, 3, []uint64{5_000_000}, 4_900_000, false), // inputs ample, balance 100000 < 450002
 			mk(150, 3, []uint64{5_000_000}, 4_549_998, false), // balance exactly 450002
+			// fee*1500 = 450001500: inputs = floor(need/100) = 4500015 (0.5 short), return 2 ada on top
+			mk(1500, 3, []uint64{4_500_015}, 2_000_000, false),
 		)
 	}
 	return out
